@@ -253,8 +253,10 @@ class Instantiator:
                 z3.Implies(x == 0, a == 0),
                 z3.Implies(x == 1, a == PI / 2),
                 z3.Implies(x == -1, a == -PI / 2),
+                z3.Implies(z3.And(x >= 0, x <= 1), a >= 0),
+                z3.Implies(z3.And(x <= 0, x >= -1), a <= 0),
             ]
-            N("arcsin principal range, sin(arcsin x)=x")
+            N("arcsin principal range, sin(arcsin x)=x, sign")
         elif fn == "arccos":
             inr = z3.And(x >= -1, x <= 1)
             ax += [
@@ -262,8 +264,10 @@ class Instantiator:
                 z3.Implies(x == 1, a == 0),
                 z3.Implies(x == 0, a == PI / 2),
                 z3.Implies(x == -1, a == PI),
+                z3.Implies(z3.And(x >= 0, x <= 1), a <= PI / 2),
+                z3.Implies(z3.And(x <= 0, x >= -1), a >= PI / 2),
             ]
-            N("arccos principal range, cos(arccos x)=x")
+            N("arccos principal range, cos(arccos x)=x, side of pi/2 by the sign of x")
         elif fn == "arctan":
             ax += [a > -PI / 2, a < PI / 2, UF["sin"](a) == x * UF["cos"](a), UF["cos"](a) > 0, z3.Implies(x == 0, a == 0)]
             N("arctan principal range, tan(arctan x)=x")
@@ -321,7 +325,13 @@ class Instantiator:
                 z3.Implies(z3.And(e == z3.RealVal("1/3"), b >= 0), z3.And(a >= 0, a * a * a == b)),
                 z3.Implies(z3.And(e == z3.RealVal("1/2"), b >= 0), z3.And(a >= 0, a * a == b)),
             ]
-            N("pow: positivity, 0^a=0 (a>0), x^0=1, x^1=x, x^2, 1^a=1, x^-1=1/x")
+            ax += [
+                z3.Implies(z3.And(b >= 1, e <= 0), a <= 1),
+                z3.Implies(z3.And(b >= 1, e >= 0), a >= 1),
+                z3.Implies(z3.And(b > 0, b <= 1, e >= 0), a <= 1),
+                z3.Implies(z3.And(b > 0, b <= 1, e <= 0), a >= 1),
+            ]
+            N("pow: positivity, 0^a=0 (a>0), x^0=1, x^1=x, x^2, 1^a=1, x^-1=1/x; x^a vs 1 by the sides of x and a")
             if deep:
                 ax.append(z3.Implies(b > 0, a == UF["exp"](e * UF["log"](b))))
                 N("x>0 => pow(x,a)=exp(a log x)")
